@@ -302,3 +302,76 @@ def render_source(abs_body, rng) -> str:
             lines.append([f"vp_c19_rec({i})", f"ann_{i}: int = vp_c19_rec({i})", f"assert vp_c19_rec({i})",
                 f"if vp_c19_rec({i}):\n    pass", f"for _it_{i} in [vp_c19_rec({i})]:\n    pass"][k])
     return "\n".join(lines) + "\n"
+
+
+# ---------------------------------------------------------------------------------------------
+# translator: which global switches do disable / enable / reset_sympy_evaluation write?  (AST of core/processors.py)
+# ---------------------------------------------------------------------------------------------
+
+PROC_FUNCS = {"disable_sympy_evaluation": "w_disable", "enable_sympy_evaluation": "w_enable",
+    "reset_sympy_evaluation": "w_reset"}
+
+
+def _is_gp_attr(node) -> bool:
+    return isinstance(node, ast.Attribute) and isinstance(node.value, ast.Name) and node.value.id == "global_parameters"
+
+
+def read_processor_writes(path: Path):
+    """{'w_disable': [(field, bool), ...], 'w_enable': ..., 'w_reset': ...} in source order.  A module-level name
+    (e.g. `_old_evaluation`) on the right-hand side is resolved to its module-level boolean constant, which is sound
+    only while no function rebinds it (`global` makes the translator refuse).  Anything else is Unmodelled."""
+    tree = ast.parse(path.read_text(encoding="utf-8"))
+    consts = {}
+    for st in tree.body:
+        tgt, val = None, None
+        if isinstance(st, ast.AnnAssign) and isinstance(st.target, ast.Name):
+            tgt, val = st.target.id, st.value
+        elif isinstance(st, ast.Assign) and len(st.targets) == 1 and isinstance(st.targets[0], ast.Name):
+            tgt, val = st.targets[0].id, st.value
+        if tgt and isinstance(val, ast.Constant) and isinstance(val.value, bool):
+            consts[tgt] = val.value
+    out = {}
+    for st in tree.body:
+        if not isinstance(st, ast.FunctionDef):
+            continue
+        stores = [n for n in ast.walk(st) if _is_gp_attr(n) and isinstance(n.ctx, ast.Store)]
+        calls = [n for n in ast.walk(st) if isinstance(n, ast.Call) and isinstance(n.func, ast.Name) and n.func.id in ("setattr", "delattr")]
+        if st.name not in PROC_FUNCS:
+            if stores or calls:
+                raise Unmodelled(f"{st.name} writes global_parameters outside the three modelled functions")
+            continue
+        ws, local = [], set()
+        for s in st.body:
+            if isinstance(s, ast.Expr) and isinstance(s.value, ast.Constant):
+                continue
+            if isinstance(s, ast.Pass):
+                continue
+            if not (isinstance(s, ast.Assign) and len(s.targets) == 1):
+                raise Unmodelled(f"{st.name}: statement {ast.dump(s)[:80]} is outside the modelled vocabulary")
+            t, v = s.targets[0], s.value
+            if isinstance(t, ast.Name):
+                if not (isinstance(v, ast.Constant) or _is_gp_attr(v)):
+                    raise Unmodelled(f"{st.name}: local {t.id} bound to a computed value")
+                local.add(t.id)                       # binds a LOCAL: no effect on module or global state
+            elif _is_gp_attr(t):
+                if isinstance(v, ast.Constant) and isinstance(v.value, bool):
+                    ws.append((t.attr, v.value))
+                elif isinstance(v, ast.Name) and v.id not in local and v.id in consts:
+                    ws.append((t.attr, consts[v.id]))
+                else:
+                    raise Unmodelled(f"{st.name}: global_parameters.{t.attr} = {ast.dump(v)[:60]} is not a resolvable constant")
+            else:
+                raise Unmodelled(f"{st.name}: assignment target {ast.dump(t)[:60]}")
+        out[PROC_FUNCS[st.name]] = ws
+    missing = [f for f, k in PROC_FUNCS.items() if k not in out]
+    if missing:
+        raise Unmodelled(f"functions not found in processors.py: {missing}")
+    return out
+
+
+def coq_writes(ws, ids) -> str:
+    return "[" + "; ".join(f"({ids[f]}%N, {coq_bool(v)})" for f, v in ws) + "]"
+
+
+def coq_switches(rec, ids) -> str:
+    return "[" + "; ".join(f"({ids[f]}%N, {coq_bool(rec[f])})" for f in sorted(ids, key=ids.get)) + "]"
